@@ -324,20 +324,19 @@ def chpCtor (p : CHPP) : Except BuildError (Bool × Option String) := do
 def vec (v : ParamValue) (g : Grid) (prices : Prices) (dflt : Rat) (convert : Bool) : Except BuildError (List Rat) := do
   allSome (← makeVector v g prices (some dflt) convert)
 
-/-- constructor + the part of `setup_optim_problem` in front of the generation.  `none`: the asset has no
-    step on the grid and the base problem is returned unchanged. -/
-def resolveCHP (p : CHPP) (base : AssetProblem) (g : Grid) (prices : Prices) (unitSec stepSec : Nat) :
-    Except BuildError (Option CHPR) := do
-  let (heat, fuel) ← chpCtor p
-  if g.T = 0 then return none
-  if p.freqMismatch then throw .illPosed
-  let R := convertSteps p.minRuntime unitSec stepSec
-  let tar := convertSteps p.timeAlreadyRunning unitSec stepSec
-  let D := convertSteps p.minDowntime unitSec stepSec
-  let tao := convertSteps p.timeAlreadyOff unitSec stepSec
-  let dt0 := g.dt.getD 0 0
-  let ramp := p.ramp.map (· * dt0)
-  let last := p.lastDispatch * dt0
+/-- the parameter vectors `make_vector` produces, in the order and with the assertions of the code -/
+structure CHPVecs where
+  startCosts   : List Rat
+  runningCosts : List Rat
+  share        : Option (List Rat)
+  conv         : List Rat
+  startFuel    : List Rat
+  fuelEff      : List Rat
+  consIfOn     : List Rat
+  deriving Repr, Inhabited
+
+def chpVectors (p : CHPP) (g : Grid) (prices : Prices) (heat : Bool) (fuel : Option String) :
+    Except BuildError CHPVecs := do
   let startCosts ← vec p.startCosts g prices 0 false
   let runningCosts ← vec p.runningCosts g prices 0 true
   let share ← match p.maxShareHeat with
@@ -353,30 +352,65 @@ def resolveCHP (p : CHPP) (base : AssetProblem) (g : Grid) (prices : Prices) (un
       let ci ← vec p.consumptionIfOn g prices 0 true
       if fe.any (· == 0) then throw .assertion
       pure (sf, fe, ci)
-  -- `np.hstack([c, conversion_factor_power_heat * c])`: numpy broadcast error when the base problem has two
-  -- variables per step (it is rejected a few lines later anyway: its lower bounds are negative)
-  if heat ∧ conv.length ≠ base.c.length ∧ conv.length ≠ 1 ∧ base.c.length ≠ 1 then throw .lengthMismatch
-  let incStart0 := decide (1 < R) || startCosts.any (· != 0)
-  let incOn0 := incStart0 || decide (1 < D) || rawNonzero p.minCap
-  let incStart := if fuel.isSome then incStart0 || startFuel.any (· != 0) else incStart0
-  let incOn := if fuel.isSome then incOn0 || incStart || consIfOn.any (· != 0) else incOn0
-  if base.l.any (· < 0) then throw .assertion
-  if base.u.any (· < 0) then throw .assertion
+  pure { startCosts, runningCosts, share, conv, startFuel, fuelEff, consIfOn }
+
+/-- conversion of durations, scaling by `dt[0]` and the include decisions (pure).  `rampTimes` = start + shutdown
+    ramp time in steps (added to the minimum runtime), `prof` = a start or shutdown ramp profile is given
+    (both 0 / false in the profile-free case) -/
+def mkCHPR (p : CHPP) (base : AssetProblem) (g : Grid) (heat : Bool) (fuel : Option String) (v : CHPVecs)
+    (unitSec stepSec : Nat) (rampTimes : Nat) (prof : Bool) : CHPR :=
+  let R := convertSteps p.minRuntime unitSec stepSec + rampTimes
+  let D := convertSteps p.minDowntime unitSec stepSec
+  let dt0 := g.dt.getD 0 0
+  let incStart0 := decide (1 < R) || v.startCosts.any (· != 0) || prof
+  let incOn0 := incStart0 || decide (1 < D) || prof || rawNonzero p.minCap
+  let incStart := if fuel.isSome then incStart0 || v.startFuel.any (· != 0) else incStart0
+  let incOn := if fuel.isSome then incOn0 || incStart || v.consIfOn.any (· != 0) else incOn0
+  { name := p.name, nodes := p.nodes, T := g.T, idx := g.idx, base := base, heat := heat, fuel := fuel,
+    conv := v.conv, share := v.share, ramp := p.ramp.map (· * dt0), last := p.lastDispatch * dt0,
+    startCosts := v.startCosts, runningCosts := v.runningCosts, R := R, D := D,
+    tar := convertSteps p.timeAlreadyRunning unitSec stepSec, tao := convertSteps p.timeAlreadyOff unitSec stepSec,
+    incOn := incOn, incStart := incStart, fuelEff := v.fuelEff, consIfOn := v.consIfOn, startFuel := v.startFuel }
+
+/-- the checks of the code AFTER the cost vector is complete (not reached with `costs_only`) -/
+def chpLateChecks (r : CHPR) : Except BuildError Unit := do
+  if r.base.l.any (· < 0) then throw .assertion
+  if r.base.u.any (· < 0) then throw .assertion
   -- with non-negative `min_cap` the contract has one variable per step; anything else is outside this model
-  if base.c.length ≠ g.T ∨ base.l.length ≠ g.T ∨ base.u.length ≠ g.T ∨ base.mapping.length ≠ g.T then throw .notImplemented
+  if r.base.c.length ≠ r.T ∨ r.base.l.length ≠ r.T ∨ r.base.u.length ≠ r.T ∨ r.base.mapping.length ≠ r.T then
+    throw .notImplemented
   -- `_add_dispatch_variables`: "Only variables of type 'd' are allowed in op.mapping at this point"
-  if heat ∧ base.mapping.any (fun m => m.kind != VarKind.d) then throw .assertion
-  let r : CHPR := { name := p.name, nodes := p.nodes, T := g.T, idx := g.idx, base := base, heat := heat, fuel := fuel,
-                    conv := conv, share := share, ramp := ramp, last := last, startCosts := startCosts,
-                    runningCosts := runningCosts, R := R, D := D, tar := tar, tao := tao, incOn := incOn,
-                    incStart := incStart, fuelEff := fuelEff, consIfOn := consIfOn, startFuel := startFuel }
+  if r.heat ∧ r.base.mapping.any (fun m => m.kind != VarKind.d) then throw .assertion
   -- pandas: assigning a length-T array to a selection of another length is a ValueError
-  match fuel with
+  match r.fuel with
   | none => pure ()
   | some _ =>
-    if (r.dispRowsAt (r.nodes.getD 0 "")).length ≠ g.T then throw .lengthMismatch
-    if heat ∧ (r.dispRowsAt (r.nodes.getD 1 "")).length ≠ g.T then throw .lengthMismatch
+    if (r.dispRowsAt (r.nodes.getD 0 "")).length ≠ r.T then throw .lengthMismatch
+    if r.heat ∧ (r.dispRowsAt (r.nodes.getD 1 "")).length ≠ r.T then throw .lengthMismatch
+
+/-- `np.hstack([c, conversion_factor_power_heat * c])`: numpy broadcast error when the base problem has two
+    variables per step (it is rejected a few lines later anyway: its lower bounds are negative) -/
+def chpCostCheck (r : CHPR) : Except BuildError Unit :=
+  if r.heat ∧ r.conv.length ≠ r.base.c.length ∧ r.conv.length ≠ 1 ∧ r.base.c.length ≠ 1 then throw .lengthMismatch
+  else pure ()
+
+/-- constructor + the part of `setup_optim_problem` in front of the generation.  `none`: the asset has no
+    step on the grid and the base problem is returned unchanged.  With `costsOnly` the code returns the cost
+    vector before the late checks. -/
+def resolveCHPWith (p : CHPP) (base : AssetProblem) (g : Grid) (prices : Prices) (unitSec stepSec : Nat)
+    (costsOnly : Bool) : Except BuildError (Option CHPR) := do
+  let hf ← chpCtor p
+  if g.T = 0 then return none
+  if p.freqMismatch then throw .illPosed
+  let v ← chpVectors p g prices hf.1 hf.2
+  let r := mkCHPR p base g hf.1 hf.2 v unitSec stepSec 0 false
+  chpCostCheck r
+  if costsOnly then return some r
+  chpLateChecks r
   pure (some r)
+
+def resolveCHP (p : CHPP) (base : AssetProblem) (g : Grid) (prices : Prices) (unitSec stepSec : Nat) :
+    Except BuildError (Option CHPR) := resolveCHPWith p base g prices unitSec stepSec false
 
 /-- model of `CHPAsset.setup_optim_problem` (and `Plant`), profile-free case, on top of the base problem -/
 def buildCHP (p : CHPP) (base : AssetProblem) (g : Grid) (prices : Prices) (unitSec stepSec : Nat) :
@@ -384,5 +418,12 @@ def buildCHP (p : CHPP) (base : AssetProblem) (g : Grid) (prices : Prices) (unit
   match ← resolveCHP p base g prices unitSec stepSec with
   | none => pure base
   | some r => pure (assembleCHP r)
+
+/-- `setup_optim_problem(costs_only=True)`: the cost vector (of the base problem when the window is empty) -/
+def costsOnlyCHP (p : CHPP) (base : AssetProblem) (g : Grid) (prices : Prices) (unitSec stepSec : Nat) :
+    Except BuildError (List Rat) := do
+  match ← resolveCHPWith p base g prices unitSec stepSec true with
+  | none => pure base.c
+  | some r => pure r.cost
 
 end EAO
